@@ -5,6 +5,7 @@ from yowsup.layers.protocol_messages.protocolentities.attributes.converter impor
 from yowsup.layers.protocol_messages.protocolentities.attributes.attributes_message_meta import MessageMetaAttributes
 from yowsup.layers.protocol_receipts.protocolentities import OutgoingReceiptProtocolEntity
 
+from yowsup.layers.protocol_messages.proto.e2e_pb2 import Message
 import logging
 logger = logging.getLogger(__name__)
 
@@ -43,7 +44,7 @@ class YowMessagesProtocolLayer(YowProtocolLayer):
                             MessageMetaAttributes.from_message_protocoltreenode(node)
                         )
                     )
-                elif not message.sender_key_distribution_message:
+                elif not self.isSenderKeyDistributionOnly(protoNode):
                     # Will send receipts for unsupported message types to prevent stream errors
                     logger.warning("Unsupported message type: %s, will send receipts to "
                                    "prevent stream errors" % message)
@@ -54,3 +55,16 @@ class YowMessagesProtocolLayer(YowProtocolLayer):
                             participant=node["participant"]
                         ).toProtocolTreeNode()
                     )
+
+    def isSenderKeyDistributionOnly(self, protoNode):
+        """
+        a payload that holds the sender key and nothing else (known or unknown field) is consumed by the encryption
+        layer; anything next to the key is content and must at least be receipted
+        """
+        message = Message()
+        message.ParseFromString(protoNode.getData())
+        if not message.HasField("sender_key_distribution_message"):
+            return False
+        keyOnly = Message()
+        keyOnly.sender_key_distribution_message.CopyFrom(message.sender_key_distribution_message)
+        return message.SerializeToString() == keyOnly.SerializeToString()
